@@ -202,6 +202,10 @@ def execute(case, world):
                     r = pool.urlopen("GET", "/x")
                 elif route == "direct":
                     pm = PoolManager(retries=False, timeout=3.0, **kw)
+                    if case.get("prelude") == "http-pool":
+                        # the manager serves a plain-http origin first (the pool is created, nothing is sent): its TLS
+                        # settings are per manager, not "until the first http pool"
+                        pm.connection_from_url("http://plain.test/")
                     r = pm.request("GET", url, retries=False)
                     pools.extend(pm.pools._container.values())
                 else:
@@ -212,6 +216,8 @@ def execute(case, world):
                         pctx.load_verify_locations(cafile=world.ca_file)
                         pkw["proxy_ssl_context"] = pctx
                     pm = ProxyManager(purl, retries=False, timeout=3.0, **pkw)
+                    if case.get("prelude") == "http-pool":
+                        pm.connection_from_url("http://plain.test/")
                     try:
                         r = pm.request("GET", url, retries=False)
                     finally:
@@ -356,6 +362,24 @@ def lattice(thorough, backend):
                         for ah in (None, False):
                             for pc in (("good", "bad") if route == "https-proxy" else ("good",)):
                                 add(route=route, pair=pair, cert_reqs=r, issuer=iss, assert_fingerprint=fp, assert_hostname=ah, proxy_cert=pc, entry="pm")
+    # block 3b: the server_hostname override on tunnelled connections (the name checked inside the tunnel is the
+    # override, exactly as on a direct connection)
+    for route in (("http-proxy", "https-proxy") if backend == "ssl" else ("http-proxy",)):
+        for pair in (("exact", "other", "wild") if not thorough else pairs):
+            for sh in ("san", "nonsan"):
+                for r in (None, "CERT_REQUIRED", "CERT_OPTIONAL"):
+                    for ah in (None, False):
+                        add(route=route, pair=pair, server_hostname=sh, cert_reqs=r, assert_hostname=ah, entry="pm")
+    # block 4: the same manager has already created a pool for a plain-http origin
+    for route in ("direct", "http-proxy"):
+        for iss in ("trusted", "untrusted", "system"):
+            for t in trusts + (["ctx"] if backend == "ssl" else []):
+                for r in (None, "CERT_REQUIRED", "CERT_NONE"):
+                    for sh in (None, "nonsan"):
+                        for ctx in ((None, "u3") if t != "ctx" else ("u3",)):
+                            for pair in ("exact", "other"):
+                                add(route=route, issuer=iss, trust=t, cert_reqs=r, server_hostname=sh, ssl_context=ctx, pair=pair,
+                                    entry="pm", prelude="http-pool")
     return out
 
 
